@@ -94,6 +94,8 @@ pub enum Sel {
 pub enum Delay {
     MinPlus(i8),
     K(u32),
+    /// u32::MAX - current ledger + x: the ready ledger saturates (x >= 0) or just does not (x < 0)
+    Huge(i8),
 }
 
 #[derive(Clone, Debug, Serialize, Deserialize, PartialEq, Eq)]
@@ -326,7 +328,7 @@ fn step() -> BoxedStrategy<Step> {
     ];
     let check_auth = (ctx_list, metas(), at()).prop_map(|(contexts, (metas, fit), at)| Step::CheckAuth { contexts, metas, fit, at });
     prop_oneof![
-        9 => (sel_w([1, 1, 8, 1, 1, 0, 0]), prop_oneof![1 => Just(Delay::MinPlus(-1)), 5 => Just(Delay::MinPlus(0)), 2 => Just(Delay::MinPlus(1)), 3 => (0u32..6).prop_map(Delay::K)], prop_oneof![3 => 0u16..10000, 1 => 0u16..20000, 1 => any::<u16>()], auth())
+        9 => (sel_w([1, 1, 8, 1, 1, 0, 0]), prop_oneof![1 => Just(Delay::MinPlus(-1)), 5 => Just(Delay::MinPlus(0)), 2 => Just(Delay::MinPlus(1)), 3 => (0u32..6).prop_map(Delay::K), 1 => prop_oneof![(-1i8..=3).prop_map(Delay::Huge), Just(Delay::K(u32::MAX))]], prop_oneof![3 => 0u16..10000, 1 => 0u16..20000, 1 => any::<u16>()], auth())
             .prop_map(|(op, delay, by, auth)| Step::Schedule { op, delay, by, auth }),
         2 => (sel_w([1, 2, 1, 5, 1, 0, 0]), prop_oneof![4 => 0u16..20000, 1 => any::<u16>()], auth()).prop_map(|(op, by, auth)| Step::Cancel { op, by, auth }),
         4 => (sel_w([1, 1, 0, 1, 1, 0, 10]), exec_sel(), auth(), at()).prop_map(|(op, executor, auth, at)| Step::Execute { op, executor, auth, at }),
@@ -826,7 +828,9 @@ fn pre_advance(w: &World, m: &Model, k: Option<usize>, at: &Option<i8>) {
     if let (Some(k), Some(d)) = (k, at) {
         if let St::Sched(r) = m.st[k] {
             let to = (r as i64 + *d as i64).max(0) as u32;
-            if to > envx::seq(&w.e) {
+            // the test host fails with a storage TTL overflow when the ledger comes within a few million of
+            // u32::MAX; operations whose ready ledger saturated are simply never reached (they stay Waiting)
+            if to > envx::seq(&w.e) && to < u32::MAX - 20_000_000 {
                 envx::set_seq(&w.e, to);
             }
         }
@@ -974,7 +978,11 @@ pub fn run(case: &Case, ctx: &mut Ctx) -> R {
                 let d = match delay {
                     Delay::MinPlus(x) => (m.min_delay as i64 + *x as i64).max(0) as u32,
                     Delay::K(x) => *x,
+                    Delay::Huge(x) => ((u32::MAX - now) as i64 + *x as i64).clamp(0, u32::MAX as i64) as u32,
                 };
+                if now.checked_add(d).is_none() {
+                    ctx.class("schedule_delay_saturating");
+                }
                 let o = &w.ops[k];
                 let mk = |d: u32| Inv::new(&ctrl, "schedule_op", args![&e; o.target.clone(), o.func.clone(), o.args.clone(), o.pred.clone(), o.salt.clone(), d, w.actors[by].clone()]);
                 let inv = mk(d);
